@@ -19,7 +19,7 @@ ASSUMPTIONS = ["equality is type-aware deep equality (bool != int, date != Times
 COMPONENTS = {"real": ["twosigma.memento runner, codecs, exception replay, storage backends, memory cache", "tmpfs", "fork lifetimes"],
               "stub": ["scripted function bodies (values come from a table through the builtins side channel)", "uuid4, clock"]}
 REACH = ["first_calls", "repeat_calls", "served_after_restart", "served_after_evict", "exceptions_replayed", "forgets",
-         "nonmemoized_raised", "mementos_checked", "partition_values", "duplicate_batches"]
+         "nonmemoized_raised", "mementos_checked", "partition_values", "duplicate_batches", "walk_histories", "forget_exceptions_recursed"]
 
 PROGRAM = '''
 import twosigma.memento as m
@@ -106,8 +106,13 @@ def gen_case(seed):
     return {"seed": seed, "backend": backend, "cache_kib": cache_kib, "sep_meta": rng.random() < 0.3, "specs": specs, "ops": ops}
 
 
+NWALK = {"quick": 600, "thorough": 10000}
+
+
 def cases(tier, seed):
-    return [gen_case(core.run_seed(seed, PROP, i)) for i in range(NCASES[tier])]
+    from . import c02walk
+    return [gen_case(core.run_seed(seed, PROP, i)) for i in range(NCASES[tier])] + \
+        [c02walk.gen_case(core.run_seed(seed, PROP + "-walk", i)) for i in range(NWALK[tier])]
 
 
 def build_value(spec):
@@ -251,6 +256,9 @@ def replay_class(kind):
 
 
 def execute(case):
+    if case.get("walk"):
+        from . import c02walk
+        return c02walk.execute(case)
     root = core.new_scratch("c02")
     viol = []
     stats = {}
